@@ -85,13 +85,13 @@ theorem dec_xb_two (im : IceMode) (him : im = .blink ∨ im = .ice) (c : Cell)
   unfold encCell
   rw [henc, decodeChar_split]
   rcases him with him | him <;> subst him
-  · obtain ⟨_, _, _, hbg⟩ := attrCell_blink c h
+  · obtain ⟨_, _, hbg⟩ := attrCell_blink c h
     rw [asU8_blink, hnb]
     show (⟨c.ch, (decodeChar false true (0, _)).attr⟩ : Cell) = _
     rw [tab_dec_ext_blink c.attr.fg hfg c.attr.bg hbg (isBlink c.attr) (decide (c.attr.page = 1)), hpage]
     unfold shownCell
     rw [hshown]
-  · obtain ⟨_, _, _, hbg, hbl⟩ := attrCell_ice c h
+  · obtain ⟨_, _, hbg, hbl⟩ := attrCell_ice c h
     rw [asU8_ice, hnb, hbl]
     show (⟨c.ch, (decodeChar true true (0, _)).attr⟩ : Cell) = _
     rw [tab_dec_ext_ice c.attr.fg hfg c.attr.bg hbg (decide (c.attr.page = 1)), hpage]
